@@ -15,6 +15,9 @@ EXPLANATION = (
     "(it is never counted, yielded or swallowed). Errors keep copies of the cursor (O6.4), so a yielded error keeps "
     "its own location after iteration moved on. The relational statement 'modes differ only in presentation' follows "
     "because all three modes are compared against the same per-row oracle."
+    " Added in rounds 6 and 7: The Reader.rows table also compares the cursor line of every validated row, so the"
+    " error of row k is the same in every mode. (O6.5) an ODS file that is empty, no archive, lacks content.xml or"
+    " holds malformed XML ends in DataFormatError before any row (C15's table)."
 )
 ASSUMPTIONS = ["csv / xlrd / ElementTree detect malformed containers (not decided here); which exceptions the raw readers convert is C10's escape analysis"]
 
